@@ -356,13 +356,15 @@ def run_driver(fam, scratch_dir, mode, args, seed, tier, infile=None, timeout=90
 # --------------------------------------------------------------------------- known findings
 
 def load_known():
-    path = os.path.join(VERIF, "KNOWN_FINDINGS.jsonl")
+    """KNOWN_FINDINGS.jsonl plus specs/<family>/known_findings.jsonl (same format)."""
+    import glob
     out = []
-    if os.path.isfile(path):
-        for ln in open(path):
-            ln = ln.strip()
-            if ln and not ln.startswith("#"):
-                out.append(json.loads(ln))
+    for path in [os.path.join(VERIF, "KNOWN_FINDINGS.jsonl")] + sorted(glob.glob(os.path.join(SPECS, "*", "known_findings.jsonl"))):
+        if os.path.isfile(path):
+            for ln in open(path):
+                ln = ln.strip()
+                if ln and not ln.startswith("#"):
+                    out.append(json.loads(ln))
     return out
 
 
